@@ -251,7 +251,9 @@ impl SpanContext {
             let stack = LOCAL_SPAN_STACK.try_with(Rc::clone).ok()?;
 
             let mut stack = stack.borrow_mut();
-            let collect_token = stack.current_collect_token()?[0];
+            // The token is empty if the local parent belongs to no trace, e.g. a span created
+            // from a set of no-op parents.
+            let collect_token = *stack.current_collect_token()?.first()?;
 
             Some(Self {
                 trace_id: collect_token.trace_id,
